@@ -2402,3 +2402,11 @@ variant('b-reassembly-cache-evicts-by-count', ['C03', 'C01'], 'rsocket/frame_fra
         "            self._frames_by_stream_id[frame.stream_id] = self._frame_fragment_builder(frame)\n",
         "            self._frames_by_stream_id[frame.stream_id] = self._frame_fragment_builder(frame)\n            while len(self._frames_by_stream_id) > 16:\n                self._frames_by_stream_id.pop(next(iter(self._frames_by_stream_id)))\n",
         ('C03.j', 'FrameFragmentCache.append'))
+
+# round 11: C14.d atomic release, C16.g names unchanged
+variant('b-lease-release-yields-per-request', ['C14'], RB,
+        "            self.send_frame(self._request_queue.get_nowait())\n            self._request_queue.task_done()\n",
+        "            self.send_frame(self._request_queue.get_nowait())\n            self._request_queue.task_done()\n            await asyncio.sleep(0)\n",
+        ('C14.d', 'RSocketBase.handle_lease'))
+variant('b-encoding-names-lower-cased', ['C16'], 'rsocket/extensions/mimetypes.py',
+        "    return ensure_bytes(encoding)\n", "    return ensure_bytes(encoding).lower()\n", ('C16.g', 'ensure_encoding_name'))
